@@ -3,10 +3,10 @@ reg("C17",
     anchor_files=["src/hgraph/runtime/executor.cpp", "include/hgraph/runtime/node_scheduler.h", "src/hgraph/runtime/node.cpp", "src/hgraph/runtime/evaluation_clock.cpp"],
     quick=dict(defs=dict(KNODES=2, JEVALS=1, DMAX=3, WIN=8, BUSY_MAX_US=2, LATE_MAX_US=2, MAX_WAITS=6), symx=dict(shards=16, **{"max-wall": 900})),
     thorough=dict(defs=dict(KNODES=2, JEVALS=2, DMAX=3, WIN=10, BUSY_MAX_US=2, LATE_MAX_US=2, MAX_WAITS=8), symx=dict(shards=16, **{"max-wall": 3000, "shard-depth": 8})),
-    reach=["end", "run_returned", "ran_to_end_time", "stop_requested_during_wait", "three_cycles"],
+    reach=["end", "run_returned", "ran_to_end_time", "stop_requested_during_wait", "stop_requested_during_start", "three_cycles"],
     bounds="real-time executor, single evaluation thread; KNODES self-scheduling nodes re-scheduling JEVALS times by a symbolic delta in [0,DMAX] us; run starts "
            "0..3 us behind the wall clock (symbolic); every timed wait may overshoot its deadline by 0..LATE_MAX_US us and node 0's evaluation takes 0..BUSY_MAX_US us "
-           "(both enumerated); a stop request is injected at the k-th wait for every k < MAX_WAITS or never; window WIN us",
+           "(both enumerated); a stop request is injected at the k-th wait for every k < MAX_WAITS, from a node's start hook, or never; window WIN us",
     outside="wall-clock alarms (on_wall_clock scheduling); the 1024-cycle drain cut; pushes (covered by C16_push_rt); real threads and data races; sub-microsecond clock values",
     assumptions=["the wall clock is symx's virtual clock: it advances only while waiting (to the wait deadline plus lateness) and while node 0 evaluates; "
                  "symbolic wait deadlines are made concrete by solver-driven enumeration",
